@@ -420,6 +420,9 @@ class TypeManager(object):
         try:
             ty = self._bv_types[width]
         except KeyError:
+            if width <= 0:
+                raise PysmtValueError("The width of a bit-vector sort must "
+                                      "be positive, got %s." % str(width))
             ty = _BVType(width=width)
             self._bv_types[width] = ty
         return ty
